@@ -233,7 +233,7 @@ def check(ctx):
         ctx.add("4.commit-error-propagates", "REJECT", bool(bad) and all(b.path([ctx._edge_target(b, e)], b.return_blocks(), cut_blocks=b.error_blocks()) is None for e in bad),
                 "a failing commit is an error", sites=[cm[0].where()], site_key="cm")
         hk = sorted(ins, key=lambda c: c.bb)[0]
-        ctx.arg_origin("4.stored-under-given-height", hk, 1, "local:height", depth=1)
+        ctx.arg_origin("4.stored-under-given-height", hk, 1, ctx.pspec(u, 2), depth=1)
 
     # -- 5. regenerated header fields: the outbox message ids are collected per transaction, skipping reverted ones --
     with ctx.clause("5.outbox-ids-per-transaction"):
